@@ -13,7 +13,6 @@ def outputSites : List (String × String) := [
   ("standard_library/io.rs", "io::stdout"),
   ("standard_library/io.rs", "display!"),
   ("standard_library/io.rs", "display!"),
-  ("standard_library/mod.rs", "eprintln!"),
   ("standard_library/mod.rs", "display!"),
   ("standard_library/mod.rs", "display!"),
   ("standard_library/style.rs", "display!"),
